@@ -7,14 +7,14 @@ META = dict(
     functions=['html.c: mmd_print_string_html, mmd_print_char_html', 'latex.c: mmd_print_string_latex, mmd_print_char_latex',
                'opendocument-content.c: mmd_print_string_opendocument, mmd_print_char_opendocument', 'opml.c: mmd_print_source_opml', 'itmz.c: mmd_print_source_itmz'],
     stubs=['d_string.c -> ds_model (C19)'],
-    assumptions=['obfuscate=false (e-mail obfuscation is C05)'],
+    assumptions=['e-mail obfuscation (c04_esc_html_obfuscated): the generator is abstract (any draw); which numeric form is chosen does not matter'],
     outside=['"every body word appears in every format", order and nesting of writer markup are whole-tree properties of the writer switches: not encoded',
              'that every text position funnels into these escapers (syntactic side condition, not proved)'],
 )
 
 def harnesses(tier):
     hs = []
-    for fmt in range(7):
+    for fmt in range(8):
         N = (3 if fmt in (2, 3, 4) else 4) if tier == 'quick' else (4 if fmt in (2, 3, 4) else 6)
         hs.append(esccommon.escape('c04_esc', fmt, N, tier))
     return hs
